@@ -1,6 +1,7 @@
 """Discharge rules (guards) for C01.  Each guard takes a site and returns a reason string when the site is
 structurally guarded on every path, else None.  Lemmas about the crate's own helper functions are re-validated on
 every run (Lemmas class); a guard that relies on a failed lemma does not discharge."""
+import re
 from absint import Interp, ADT, SYM, C, UNK, fmt, Budget, is_adt, Fork
 from mirlib import (short, path_endswith, callee_matches, op_place, op_const, const_value, is_local, resolve_place,
                     same_place, place_key, def_roots, bool_switch, call_result_bool_edges, switch_on_discriminant,
@@ -418,8 +419,8 @@ def _tuple_origin(fn, lem, local):
     """local is the Continue payload of as_fixed_len_tuple(_, n)? / as_ranged_len_tuple(_, a..=b)?  -> (min_len, cont_block, desc)"""
     for b, t in fn.calls():
         name = t['callee']['name']
-        # any accessor of Value named *_fixed_len_tuple / *_ranged_len_tuple whose own lemma holds (as_* clones, borrow_* lends the slice)
-        if not (name.endswith('fixed_len_tuple') or name.endswith('ranged_len_tuple')) or not t['callee'].get('local') or 'value::Value' not in t['callee']['def']:
+        # any two-argument accessor of Value whose own length lemma holds (whatever it is called; it may clone the vector or lend the slice)
+        if not t['callee'].get('local') or 'value::Value' not in t['callee']['def'] or len(t['args']) != 2:
             continue
         qm = question_mark(fn, b)
         if qm is None or local not in continue_payload_local(fn, qm):
@@ -427,9 +428,9 @@ def _tuple_origin(fn, lem, local):
         # the local must have no other definition
         if len(fn.defs().get(local, [])) != 1:
             continue
-        if name.endswith('fixed_len_tuple'):
-            n = const_of(fn, t['args'][1])
-            if isinstance(n, int) and lem.get('fixed:' + name):
+        n = const_of(fn, t['args'][1])
+        if isinstance(n, int) and not isinstance(n, bool):
+            if lem.get('fixed:' + name):
                 return n, qm['cont'], '%s(_, %d)?' % (name, n)
         else:
             pl = op_place(t['args'][1])
@@ -461,7 +462,7 @@ def G_tuplelen(ctx, prog, lem, site):
             # the slice is read straight out of the `?` result: find the accessor call whose Try::branch produced that local
             for b_, t_ in fn.calls():
                 nm_ = t_['callee']['name']
-                if (nm_.endswith('fixed_len_tuple') or nm_.endswith('ranged_len_tuple')) and t_['callee'].get('local'):
+                if t_['callee'].get('local') and 'value::Value' in t_['callee']['def'] and len(t_['args']) == 2:
                     qm_ = question_mark(fn, b_)
                     if qm_ is not None and is_local(qm_['d']) and qm_['d']['l'] == base['l']:
                         for pl_ in continue_payload_local(fn, qm_):
@@ -544,9 +545,42 @@ def G_nonempty(ctx, prog, lem, site):
     return None
 
 
+def _none_arm_source(fn, site):
+    """a diverging site (`None => unreachable!()`, `else { panic!() }`) in a block that is entered only on the None edge of a match on an
+    Option produced by a call: the same obligation as `.unwrap()` on that Option -> (producer call term, producer block, container place)"""
+    if not site['kind'].startswith('diverge:'):
+        return None
+    b = site['block']
+    # walk up through straight-line predecessors (formatting the panic message takes a few blocks) to the deciding switch
+    for _ in range(6):
+        preds = [p for p in fn.pred(b) if not fn.blocks[p]['cleanup']]
+        if len(preds) != 1:
+            return None
+        p = preds[0]
+        sw = switch_on_discriminant(fn, p)
+        if sw is not None:
+            place, targets, otherwise = sw
+            none_targets = [tg for v, tg in targets if v == 0]
+            listed = {v for v, _ in targets}
+            is_none_edge = (b in none_targets) or (otherwise == b and listed == {1})
+            if not is_none_edge or not is_local(place) or not fn.locals[place['l']]['ty'].startswith('std::option::Option<'):
+                return None
+            cd = call_def_of_local(fn, place['l'])
+            if cd is None or not cd[1]['args']:
+                return None
+            return cd[1], cd[0], arg_place(fn, cd[1], 0)
+        if fn.term(p)['k'] not in ('goto', 'call', 'drop'):
+            return None
+        b = p
+    return None
+
+
 def _unwrap_source(fn, site):
-    """for an Option::unwrap site: (producer call term, producer block, container place) when the Option comes from a call"""
+    """for an Option::unwrap site: (producer call term, producer block, container place) when the Option comes from a call; the None arm
+    of a match that diverges is the same obligation (see _none_arm_source)"""
     t = site['term']
+    if site['kind'].startswith('diverge:'):
+        return _none_arm_source(fn, site)
     if t['k'] != 'call' or not callee_matches(t, ['option::Option::<T>::unwrap']):
         return None
     pl = op_place(t['args'][0])
@@ -663,23 +697,24 @@ def G_discr(ctx, prog, lem, site):
     if fn.arg_count < 1:
         return None
     ty = fn.locals[1]['ty']
-    if not ty.startswith('&'):
+    by_ref = ty.startswith('&')
+    if ty.startswith('&mut'):
         return None
     adt = None
     for p, a in prog.adts.items():
-        if a['kind'] == 'Enum' and ty.lstrip('&').replace('mut ', '').startswith(p):
+        if a['kind'] == 'Enum' and ty.lstrip('&').startswith(p):
             adt = a
     if adt is None:
         return None
-    if fn.defs().get(1):
+    if fn.defs().get(1) or (not by_ref and _mut_borrowed(fn, 1)):
         return None
-    place = dict(l=1, p=['deref'])
+    place = dict(l=1, p=['deref'] if by_ref else [])
     d = DSP(fn, place, [v['idx'] for v in adt['variants']])
     if not d.feasible(site['block']):
         return 'block is infeasible: the outer match arm admits only variants that the inner match on the same immutable place lists (discriminant-set propagation)'
     # interprocedural form: a crate-private helper whose diverging arm is reached only for the variant set `bad`; every use of
-    # the helper is a direct call that passes the caller's own immutable enum parameter at a point where discriminant-set
-    # propagation in the caller excludes all of `bad`
+    # the helper is a direct call that passes either the caller's own immutable enum parameter, or (helper taking the enum by value)
+    # an owned local of the caller, at a point where discriminant-set propagation in the caller excludes all of `bad`
     bad = d.at(site['block'])
     if not str(fn.j.get('vis') or '').startswith('Restricted') or fn.kind == 'Closure':
         return None
@@ -705,15 +740,53 @@ def G_discr(ctx, prog, lem, site):
             if recv is None:
                 return None
             recv = resolve_place(g, recv)
-            if not (recv['l'] == 1 and strip_trailing_deref(recv)['p'] == [] and g.arg_count >= 1 and g.locals[1]['ty'].lstrip('&') == ty.lstrip('&') and g.locals[1]['ty'].startswith('&') and not g.locals[1]['ty'].startswith('&mut') and not g.defs().get(1)):
+            if by_ref and recv['l'] == 1 and strip_trailing_deref(recv)['p'] == [] and g.arg_count >= 1 and g.locals[1]['ty'].lstrip('&') == ty.lstrip('&') and g.locals[1]['ty'].startswith('&') and not g.locals[1]['ty'].startswith('&mut') and not g.defs().get(1):
+                dg = DSP(g, dict(l=1, p=['deref']), [v['idx'] for v in adt['variants']])
+            elif not by_ref and not recv['p'] and g.locals[recv['l']]['ty'] == ty:
+                # an owned local of the caller (moved into the helper, possibly through a temporary): what the caller's own match on it
+                # has excluded still holds, assignments to the local forget it
+                # follow whole-value moves back (`_t = move token` / a `token => ..` binding of the matched value): a local with a single
+                # definition `move x` holds what x held in the block of that move
+                src_l, at_b = recv['l'], b
+                for _ in range(4):
+                    sd = g.single_def(src_l)
+                    if sd is None or sd[1] == 'term' or sd[2]['k'] != 'use':
+                        break
+                    src = op_place(sd[2]['op'])
+                    if src is None or not is_local(src) or g.locals[src['l']]['ty'] != ty:
+                        break
+                    if _mut_borrowed(g, src_l):
+                        return None
+                    src_l, at_b = src['l'], sd[0]
+                if g.locals[src_l]['ty'] != ty or _mut_borrowed(g, src_l) \
+                        or any(st['k'] == 'assign' and st['pl']['l'] == src_l for st in g.blocks[at_b]['stmts']):
+                    return None
+                dg = DSP(g, dict(l=src_l, p=[]), [v['idx'] for v in adt['variants']], kill_defs=True)
+                if dg.at(at_b) & bad:
+                    return None
+                continue
+            else:
                 return None
-            dg = DSP(g, dict(l=1, p=['deref']), [v['idx'] for v in adt['variants']])
             if dg.at(b) & bad:
                 return None
     if ncalls:
         names = sorted(v['name'] for v in adt['variants'] if v['idx'] in bad)
-        return 'diverging arm of a crate-private helper is reached only for variants %s; each of its %d call sites passes the caller\'s own immutable `self` where discriminant-set propagation excludes all of them' % (names[:4] + (['...'] if len(names) > 4 else []), ncalls)
+        return 'diverging arm of a crate-private helper is reached only for variants %s; each of its %d call sites passes the caller\'s own immutable `self` (or an owned local it has matched on) where discriminant-set propagation excludes all of them' % (names[:4] + (['...'] if len(names) > 4 else []), ncalls)
     return None
+
+
+def _mut_borrowed(fn, local):
+    """some statement takes a mutable or raw borrow of the local or of a part of it"""
+    for blk in fn.blocks:
+        for st in blk['stmts']:
+            if st['k'] != 'assign':
+                continue
+            rv = st['rv']
+            if rv['k'] == 'rawptr' and rv['pl']['l'] == local:
+                return True
+            if rv['k'] == 'ref' and rv['pl']['l'] == local and (rv.get('mut') or 'Shared' not in str(rv.get('bk'))):
+                return True
+    return False
 
 
 def blkof(fn, b):
@@ -1221,13 +1294,63 @@ def _small_values(prog, fn, op, depth=6):
     return out or None
 
 
+def _range_from_of_cursor(fn, b):
+    """block b ends in `Index::index(slice, RangeFrom { start: cursor })` on an immutable slice parameter where the cursor is known to be
+    a valid index of that slice at b -> (cursor local, why), else None"""
+    t = fn.term(b)
+    if not (t['k'] == 'call' and t['callee']['name'] == 'index' and not t['callee'].get('local') and 'RangeFrom<usize>' in ' '.join(t['callee'].get('args') or []) and len(t['args']) == 2):
+        return None
+    recv = arg_place(fn, t, 0)
+    if recv is None or not is_shared_param(fn, strip_trailing_deref(recv)):
+        return None
+    rp = op_place(t['args'][1])
+    if rp is None or not is_local(rp):
+        return None
+    sd = fn.single_def(_copy_of(fn, rp['l']))
+    if sd is None or sd[1] == 'term' or sd[2]['k'] != 'aggregate' or 'RangeFrom' not in str(sd[2].get('adt')) or len(sd[2].get('ops') or []) != 1:
+        return None
+    ip = op_place(sd[2]['ops'][0])
+    if ip is None or not is_local(ip):
+        return None
+    cur = _copy_of(fn, ip['l'])
+    why = _cursor_in_bounds(fn, cur, b)
+    # the bound must be about the same slice that is indexed
+    if why is None or not _cursor_bound_is_about(fn, cur, b, strip_trailing_deref(recv)):
+        return None
+    return cur, why
+
+
+def _cursor_bound_is_about(fn, cur, b, slice_pl):
+    """the only immutable slice parameters of fn that the cursor is compared against / used with are `slice_pl` (so the bound that
+    `_cursor_in_bounds` found is a bound by the length of that slice)"""
+    shared = [i for i in range(1, fn.arg_count + 1) if is_shared_param(fn, dict(l=i, p=[])) and ('[' in fn.locals[i]['ty'] or 'Vec<' in fn.locals[i]['ty'])]
+    return len(shared) == 1 and slice_pl['l'] == shared[0]
+
+
 def G_cursor(ctx, prog, lem, site):
     """index cursor over an immutable slice: `slice[cursor]`, `cursor + k` and `cursor += consumed` where the cursor is known to be a
     valid index at that point (so < isize::MAX) and what is added is a small constant / one of a few small constants"""
     fn = site['fn']
     t = site['term']
+    if t['k'] == 'call':
+        # `&slice[cursor..]` on an immutable slice where the cursor is a valid index (so cursor <= len)
+        r = _range_from_of_cursor(fn, site['block'])
+        if r is not None:
+            return 'slice[cursor..] with the cursor a valid index of that immutable slice (%s): start <= len' % r[1]
+        return None
     if t['k'] != 'assert':
         return None
+    if t['kind'] == 'BoundsCheck' and const_of(fn, t['index']) == 0:
+        # `rest[0]` where rest = &slice[cursor..] and the cursor is a valid index of slice: rest has len - cursor >= 1 elements
+        bs = bounds_site(fn, site)
+        if bs is not None:
+            base = strip_trailing_deref(bs[0])
+            if not base['p']:
+                cd = call_def_of_local(fn, base['l'])
+                if cd is not None and fn.dominates(cd[0], site['block']):
+                    r = _range_from_of_cursor(fn, cd[0])
+                    if r is not None:
+                        return 'rest[0] where rest = &slice[cursor..] and the cursor is a valid index of that immutable slice (%s): rest is not empty' % r[1]
     if t['kind'] == 'BoundsCheck':
         ip = op_place(t['index'])
         if ip is None or not is_local(ip):
@@ -1263,6 +1386,39 @@ def G_cursor(ctx, prog, lem, site):
     return None
 
 
+def G_utf8buf(ctx, prog, lem, site):
+    """char::encode_utf8(c, buf) where buf is a whole fixed-size array of at least 4 bytes: every char encodes to at most 4 bytes"""
+    fn = site['fn']
+    t = site['term']
+    if not (t['k'] == 'call' and t['callee']['name'] == 'encode_utf8' and not t['callee'].get('local') and 'char' in t['callee']['def'] and len(t['args']) == 2):
+        return None
+    pl = op_place(t['args'][1])
+    if pl is None or not is_local(pl):
+        return None
+    # follow the unsizing cast and the reborrows back to the array local
+    l = pl['l']
+    for _ in range(5):
+        sd = fn.single_def(l)
+        if sd is None or sd[1] == 'term':
+            return None
+        rv = sd[2]
+        src = None
+        if rv['k'] == 'cast' or rv['k'] == 'use':
+            src = op_place(rv['op'])
+        elif rv['k'] == 'ref':
+            src = rv['pl']
+        if src is None:
+            return None
+        src = dict(l=src['l'], p=[x for x in src['p'] if x != 'deref'])
+        if src['p']:
+            return None
+        l = src['l']
+        m = re.match(r'^\[u8; (\d+)\]$', fn.locals[l]['ty'])
+        if m:
+            return ('the buffer is a whole [u8; %s]: a char needs at most 4 bytes' % m.group(1)) if int(m.group(1)) >= 4 else None
+    return None
+
+
 def G_cutoff(ctx, prog, lem, site):
     """&tokens[cutoff..] in the tokenizer loop: path enumeration of one loop iteration by abstract interpretation;
     on every path the constant cutoff is <= the number of tokens proven present (1 by the loop guard, 2/3 via Some(..) of get(1)/get(2))"""
@@ -1288,4 +1444,4 @@ def G_cutoff(ctx, prog, lem, site):
     return 'all %d paths of one loop iteration slice at a constant cutoff <= the number of partial tokens proven present' % len(paths)
 
 
-GUARDS = [G_constarith, G_arity, G_tuplelen, G_nonempty, G_stackpop, G_afterpush, G_enough, G_discr, G_lensum, G_constinf, G_radix, G_fnptr, G_fnptr2, G_cursor, G_cutoff]
+GUARDS = [G_constarith, G_arity, G_tuplelen, G_nonempty, G_stackpop, G_afterpush, G_enough, G_discr, G_lensum, G_constinf, G_radix, G_fnptr, G_fnptr2, G_cursor, G_utf8buf, G_cutoff]
